@@ -7,6 +7,12 @@ Tie (harness/global.cpp, ocaml/driver_global.ml):
       GlobalPlacer::place with access to the private state supplies the final LB/UB binary32 vectors, the grid limits
       and the final bins: model export on them == returned integers (+-1 and a rigorous rounding bound), model grid
       limits == C++ limits, model spreading == C++ spreadCoordX/Y on the final bins (rigorous tolerance).
+      Independently of the replica, the returned integers are compared with the blend of the last lower-bound and the last
+      upper-bound placements that the callbacks of Circuit::placeGlobal EXPOSED (cmp_exposed: derived tolerance
+      1/2 + (|1-w|+|w|)/2 + binary32 error), so that internal state drifting away from what was exposed is a violation.
+      A second stream ("gen gpc") has EXACT coincidences (floating groups with centred pins, nets whose pins all
+      coincide, stacked twins, no fixed pin at all) for all four net models; the run is stopped at the first
+      overflowed / non-finite exposed coordinate, which is a violation with the circuit.
   GR  DensityGrid::fromIspdCircuit alone: margin clipping + bin limits, exact.
   SP  spreadCoordX/Y on dyadic inputs (every binary32 operation exact): exact equality with the model.
   SF  spreadCoordX/Y on NON-dyadic inputs against the Flocq binary32 model coq/SpreadFloat.v evaluated inside Coq by
@@ -45,6 +51,32 @@ def binfrac(s):
     return -v if neg else v
 
 
+def f32(x):
+    """the binary32 value nearest to the double x, as an exact Fraction ((float)x of the C++)"""
+    import struct
+    return Fraction(struct.unpack("<f", struct.pack("<f", x))[0])
+
+
+def gp_params(line):
+    """the parameter tokens of a GP case line (18, or 21 with the optional rough-legalization knobs), by walking the circuit"""
+    t = line.split()
+    p = 1
+    p += 1 + 5 * int(t[p])
+    p += 1 + 8 * int(t[p])
+    nn = int(t[p])
+    p += 1
+    for _ in range(nn):
+        p += 2 + 3 * int(t[p])
+    return t[p:]
+
+
+def gp_fixed(line):
+    """the fixed flag of every cell of a GP case line"""
+    t = line.split()
+    p = 2 + 5 * int(t[1])
+    return [t[p + 1 + 8 * i + 6] != "0" for i in range(int(t[p]))]
+
+
 def run_driver(driver, cases, timeout=3000):
     """the extracted model on its case lines, in parallel chunks, resilient to a dying process"""
     if not cases:
@@ -81,9 +113,12 @@ class Eval:
                       "export_cells_compared": 0, "export_exact_equal": 0, "export_off_by_one": 0,
                       "grid_limit_lists_compared": 0, "spread_coordinates_compared_exact": 0,
                       "spread_coordinates_compared_tolerance": 0, "spread_equals_unrepaired_model_only": 0,
-                      "margin0_runs": 0}
-        self.dist = {"net_model": {}, "cost_model": {}, "effort": {}, "cells": {}, "ub_exposures": {}}
+                      "margin0_runs": 0, "exposed_blend_coordinates_compared": 0,
+                      "exposed_blend_worst_deviation_over_tolerance_permille": 0, "coincidence_stream_runs": 0}
+        self.dist = {"net_model": {}, "cost_model": {}, "effort": {}, "cells": {}, "ub_exposures": {}, "rough_target_blending": {},
+                     "rough_quadratic_penalty": {}, "rough_coarsening_limit": {}, "coincidence_stream_net_model": {}}
         self.nontrivial = set()
+        self.coinc = set()         # case lines of the exact-coincidence stream ("gen gpc")
 
     @staticmethod
     def bucket(d, k):
@@ -146,6 +181,10 @@ class Eval:
             self.violations.append(("global placement did not complete (crash/abort/timeout)", l, r[:300]))
             return
         status = s[0][3:]
+        if status == "STOPPED" and len(s) >= 3 and s[2] != "-":
+            # the harness stops the run at the first overflowed / non-finite exposed coordinate (a run on NaN may never end)
+            self.violations.append(("exposed/returned coordinate overflowed or not finite: " + s[2], l, s[2]))
+            return
         if "SIGNAL" in r or "DIED" in r or len(s) < 5:
             self.violations.append(("global placement did not complete: " + r[-120:], l, r[:300]))
             return
@@ -167,7 +206,18 @@ class Eval:
             self.violations.append((kind + ": " + what, l, what))
         if frame != 1:
             self.violations.append(("global placement wrote an orientation or moved a fixed cell", l, r[:200]))
-        ret = [int(x) for x in s[4].split()]
+        if l in self.coinc:
+            self.stats["coincidence_stream_runs"] += 1
+            self.bucket(self.dist["coincidence_stream_net_model"], gp_params(l)[2])
+        pub = [[int(x) for x in part.split()] for part in s[4].split("/")]
+        ret = pub[0]
+        par = gp_params(l)
+        self.bucket(self.dist["rough_target_blending"], "default 0" if len(par) < 21 or par[18] == "0" else "non-zero")
+        if len(par) >= 21:
+            self.bucket(self.dist["rough_quadratic_penalty"], "default" if par[19] == "1" else "other")
+            self.bucket(self.dist["rough_coarsening_limit"], "default" if par[20] == "1000" else "other")
+        if len(pub) == 4:
+            self.cmp_exposed(l, par, ret, pub[1], pub[2], pub[3])
         if len(s) < 15 or not s[5].startswith("OK"):
             self.differences.append(("replica of GlobalPlacer::place failed while Circuit::placeGlobal succeeded", l, " | ".join(s[5:])[:300]))
             return
@@ -189,7 +239,6 @@ class Eval:
             self.stats["gp_zero_area_circuits"] += 1
         if len(movable) < ncells:
             self.stats["gp_with_fixed"] += 1
-        par = toks[-18:]
         self.bucket(self.dist["effort"], par[0])
         self.bucket(self.dist["net_model"], par[2])
         self.bucket(self.dist["cost_model"], par[3])
@@ -209,6 +258,46 @@ class Eval:
         ox, oy, inbin = [int(x) for x in s[14].split()]
         self.stats["final_ub_outside_closed_bin_interval"] += ox + oy
         self.stats["final_ub_cells_in_bins"] += inbin
+
+    # ------------------------------------------------------------ the blend of what was EXPOSED
+    def cmp_exposed(self, l, par, ret, elb, eub, sizes):
+        """returned placement == blend of the last lower-bound and the last upper-bound placements that the callbacks of
+        Circuit::placeGlobal EXPOSED (integers L, B = round(lb - size/2), round(ub - size/2) of the binary32 lb, ub).
+        With w = (float)exportBlending: returned R = round(fl((1-w) lb + w ub) - size/2), |L + size/2 - lb| <= 1/2,
+        |B + size/2 - ub| <= 1/2, so   |R - ((1-w) L + w B)| <= 1/2 + (|1-w| + |w|)/2 + errb
+        where errb = 4u(|1-w||lb| + |w||ub|) + 2^-40 (|.|+1) is the binary32 rounding of blendPlacement (the bound used by
+        cmp_export), evaluated with |lb| <= |L + size/2| + 1/2 and |ub| <= |B + size/2| + 1/2."""
+        fixed = gp_fixed(l)
+        n = len(fixed)
+        if len(ret) != 2 * n or len(elb) != 2 * n or len(eub) != 2 * n or len(sizes) != 2 * n:
+            self.differences.append(("Circuit::placeGlobal returned without exposing both a lower-bound and an upper-bound placement "
+                                     "(%d / %d coordinates exposed for %d cells): the exposed-blend comparison is impossible"
+                                     % (len(elb), len(eub), n), l, ""))
+            return
+        w = f32(int(par[16]) / 100.0)
+        half = Fraction(1, 2)
+        for i in range(n):
+            if fixed[i]:
+                continue
+            for axis in (0, 1):
+                k = 2 * i + axis
+                R, L, B, hs = ret[k], elb[k], eub[k], Fraction(sizes[k], 2)
+                self.stats["exposed_blend_coordinates_compared"] += 1
+                ideal = (1 - w) * L + w * B
+                errb = (4 * U * (abs(1 - w) * (abs(L + hs) + half) + abs(w) * (abs(B + hs) + half))
+                        + Fraction(1, 1 << 40) * (abs(ideal) + hs + 1))
+                tol = half + (abs(1 - w) + abs(w)) / 2 + errb
+                dev = abs(R - ideal)
+                if dev > self.stats["exposed_blend_worst_deviation_over_tolerance_permille"] * tol / 1000:
+                    self.stats["exposed_blend_worst_deviation_over_tolerance_permille"] = int(dev * 1000 / tol)
+                if dev > tol:
+                    self.violations.append((
+                        "returned placement is not the blend of the last EXPOSED lower-bound and upper-bound placements: cell %d %s "
+                        "returned %d, last exposed lower bound %d, last exposed upper bound %d, export blending w=%s: (1-w)LB+wUB = %.4f, "
+                        "deviation %.4f > tolerance %.4f (rough-legalization target blending %s/100)"
+                        % (i, "xy"[axis], R, L, B, float(w), float(ideal), float(dev), float(tol), par[18] if len(par) >= 21 else "0"),
+                        l, "returned %d exposedLB %d exposedUB %d" % (R, L, B)))
+                    return
 
     # ------------------------------------------------------------ comparisons with the model
     def cmp_spread(self, l, case, got, m, exact):
@@ -489,15 +578,19 @@ def gen_cases(ctx, harness):
     lines = common.corpus("C06", ("GP ", "GR ", "SP "))
     ncorpus = len(lines)
     if ctx.quick:
-        plan = [("gp", ctx.seed, 260, 0), ("grid", ctx.seed, 3000, None), ("spread", ctx.seed, 3000, None)]
+        plan = [("gp", ctx.seed, 260, 0), ("gpc", ctx.seed + 31, 120, None), ("grid", ctx.seed, 3000, None), ("spread", ctx.seed, 3000, None)]
     else:
         plan = []
         for k in range(3):
             s = ctx.seed + 1000 * k
-            plan += [("gp", s, 1500, 0), ("gp", s + 7, 700, 1), ("grid", s, 30000, None), ("spread", s, 30000, None)]
+            plan += [("gp", s, 1500, 0), ("gp", s + 7, 700, 1), ("gpc", s + 31, 1200, None), ("grid", s, 30000, None), ("spread", s, 30000, None)]
+    coinc = set()
     for what, s, n, lvl in plan:
-        lines += common.harness_gen(harness, [what, s, n] + ([lvl] if lvl is not None else []))
-    return lines, ncorpus
+        new = common.harness_gen(harness, [what, s, n] + ([lvl] if lvl is not None else []))
+        if what == "gpc":
+            coinc.update(new)
+        lines += new
+    return lines, ncorpus, coinc
 
 
 def report(ctx, ev, proof_ok, proof, lines):
@@ -528,8 +621,9 @@ def run(ctx):
     proof_ok, proof = common.proof_status(ctx, "C06")
     harness = common.build_harness("global")
     driver = common.build_driver("global")
-    lines, ncorpus = gen_cases(ctx, harness)
+    lines, ncorpus, coinc = gen_cases(ctx, harness)
     ev = Eval(harness, driver)
+    ev.coinc = coinc
     ev.run(lines)
     nvm, vmbad = vm_crosscheck(harness, driver, ctx.seed)
     ftie = float_tie(ctx, harness, ev, 48)
@@ -550,13 +644,24 @@ def run(ctx):
             "Circuit::placeGlobal on every exposed placement"],
         "evaluations": len(lines), "distinct_nontrivial": len(ev.nontrivial),
         "rule": "distinct case lines; non-trivial = GP: >= 2 upper-bound exposures and >= 2 movable cells; SP: some bin with >= 2 cells of "
-                "positive demand; GR: more than one bin in x or y",
+                "positive demand; GR: more than one bin in x or y.  Every completed GP run is checked twice for the blend: model export on the "
+                "replica's final binary32 LB/UB vectors, and (statistics.exposed_blend_coordinates_compared) returned integer R against the "
+                "integers L, B last EXPOSED by the LowerBound / UpperBound(or PenaltyUpdate) callbacks of Circuit::placeGlobal: "
+                "|R - ((1-w)L + wB)| <= 1/2 + (|1-w|+|w|)/2 + 4u(|1-w|(|L+size/2|+1/2) + |w|(|B+size/2|+1/2)) + 2^-40(.), w = (float)exportBlending "
+                "(1/2 per std::round of R, L, B weighted by the blend; u = 2^-24); roughLegalization.targetBlending (-0.1..0.89, non-zero in ~65% "
+                "of the runs), quadraticPenalty (0..1) and coarseningLimit (0.5..500) are varied (distribution.rough_*).  "
+                "statistics.coincidence_stream_runs GP runs come from the exact-coincidence stream (30 per net model in the quick tier); an "
+                "exposed coordinate of magnitude >= 2^30 (INT_MIN = converted NaN/inf) stops the run and is a violation with the circuit",
         "samples": [gp[0][:400] if gp else "", lines[len(lines) // 2][:400], lines[-1][:400]],
         "corpus_cases": ncorpus, "vm_compute_crosschecked_cases": nvm, "binary32_tie": ftie, "finding_F21_circuit": f21, "kinds": {k: ev.stats.get(k, 0) for k in ("GP", "GR", "SP")},
         "domain": "rows >= 4 row heights wide, >= 1 movable cell of positive area, clipped capacity > 0 (others SKIPped and counted), "
                   "CG tolerance 1e-1..1e-6, approximation/cutoff distances >= 0.1, all 4 net models, all 6 cost models, line/diag/square "
-                  "windows, 1-D transport on/off, 0-3 rough steps, bin size 1-25, export blending -0.5..1.5, default side margin 0.9; "
-                  "zero-area movable cells, fixed cells (also far away / zero size), obstructions, split rows, nets of degree 1-20",
+                  "windows, 1-D transport on/off, 0-3 rough steps, bin size 1-25, export blending -0.5..1.5, rough-legalization target blending "
+                  "-0.1..0.89, quadratic penalty 0..1, coarsening limit 0.5..500, default side margin 0.9, default penalty target blending; "
+                  "zero-area movable cells, fixed cells (also far away / zero size), obstructions, split rows, nets of degree 1-20; "
+                  "exact-coincidence stream: even sizes, groups of 3-7 cells connected only to each other with pins at the cell centres (or identical "
+                  "cells with identical pin offsets), 2-5 identical cells stacked on one position and tied to one pad pin, nets with 2-5 pins on one "
+                  "spot of one cell (both axes / x only / y only), circuits without any fixed pin, all movable cells starting on one position",
         "slack": "centre vs rows' bounding box: x exact when the margin is >= 1 (else 1/2), y 1/2 (closed-interval clamp of cells without "
                  "a bin + integer rounding of the lower-left; theorem c06_exported_centre_closed); excursions of exactly 1/2 are counted below",
         "statistics": ev.stats, "distribution": ev.dist,
